@@ -17,12 +17,15 @@ CLAIMS = {
     "C02": dict(
         category="other",
         technique="MIR dataflow: drop-elaboration ownership (no normal-path Drop of the argument), move-sink tracing, "
-        "must-pass-through, must guard facts (difference constraints) at every return site",
+        "must-pass-through, must guard facts (difference constraints) at every return site, panic-site reachability with "
+        "caller-context projection",
         text="Static decision, for symbolic N/start/size and hence for every capacity, layout and history at once, of "
         "clauses 1-5 of the property on the drop-elaborated MIR of push_back, push_front, try_push_back, try_push_front: "
         "the argument is never destroyed; Err/Some carry the very argument or the value displaced by mem::replace; no "
         "buffer write on a path to Err; every Ok/None path stores the argument and grows size; Ok/None only under "
-        "size<N, Err/Some only under size>=N or N==0. Not decided: which end / length delta (values).",
+        "size<N, Err/Some only under size>=N or N==0; none of the four can reach an explicit panic site — in the thorough "
+        "tier also no debug assertion of the -Cdebug-assertions=on build — under the guard facts of its call paths (TOTAL1). "
+        "Not decided: which end / length delta (values).",
         note="Assumes INV (size <= N at entry; its preservation is checked by INV1 under C04). Trusted: rustc's MIR "
         "construction and drop elaboration, the mirdump driver's serialisation. Value-level clause 6 not decided.",
         ref="DESIGN.md §5 C02",
@@ -57,10 +60,12 @@ CLAIMS = {
         "— an undocumented panic in debug builds, a wrapped index in release — by REQUIRES(b <= a) discharged at the site or "
         "propagated to the callers (SUB1; obligations over opaque values are counted as undecided, never reported). Thorough "
         "tier, debug build: every debug assertion is proved unreachable from the public entries except a reviewed table "
-        "of value-level ones (DBGASSERT1). Not decided: implicit bounds/range checks (counted; infeasible under INV), "
-        "loop termination.",
-        note="Assumes INV (checked by INV1 under C04) and core's RangeBounds impls; implicit slice/array bounds checks "
-        "and termination are not judged.",
+        "of value-level ones (DBGASSERT1). The implicit checks of range indexing, split_at and rotate (a <= b <= len) are "
+        "decided like SUB1, with symbolic slice lengths and inferred postconditions (translate_range_bounds: start <= end <= "
+        "len) — 35 of 51 obligations on the reviewed tree, the rest undecided (RIDX1). Not decided: single-element bounds "
+        "checks (counted; infeasible under INV), loop termination.",
+        note="Assumes INV (checked by INV1 under C04) and core's RangeBounds impls; single-element bounds checks and "
+        "termination are not judged; SUB1/RIDX1 report only obligations over transparent operands.",
         ref="DESIGN.md §5 C11",
     ),
     "C06": dict(
@@ -102,7 +107,10 @@ CLAIMS = {
         "helpers' own debug_assert!s), header written only by reviewed functions with shapes preserving size<=N, start<N "
         "(INV1), capacity zero never reaches a modulus/index (MOD1), the free-slot view is write-only (FREE1), "
         "constructors ignore storage bytes (CTOR1), slice-level reinterpretation only in reviewed guarded functions "
-        "(REINT1). Also: a physical slot position add_mod(start,i,N) used to index/offset/swap storage needs i<size (ACC2b); index-kind inference: physical positions and logical indices/lengths are never compared nor substituted for each other, and the backing array is sliced only by physical positions (KIND1); DRNVIEW1. Not decided: bounds arithmetic inside the slice views; two-run non-interference.",
+        "(REINT1); the header is shrunk before drop_range runs destructors and not written afterwards (PS1); the observers "
+        "(eq/ord/hash/Debug) read the contents only through len/as_slices/iter and feed std's algorithms element by element "
+        "(OBS1/ORD1/HASH1/DBG1), and the positional accessors answer from the logical position only (NONE1/DERIV1) — the "
+        "'equal contents are indistinguishable' clause. Also: a physical slot position add_mod(start,i,N) used to index/offset/swap storage needs i<size (ACC2b); index-kind inference: physical positions and logical indices/lengths are never compared nor substituted for each other, and the backing array is sliced only by physical positions (KIND1); DRNVIEW1. Not decided: bounds arithmetic inside the slice views; two-run non-interference.",
         note="One INV1 store (extend_from_slice size + other.len()) is listed as an assumption, not decided. Drain::read "
         "is a named exception (unsafe fn with a value-level contract).",
         ref="DESIGN.md §5 C04",
@@ -213,7 +221,10 @@ CLAIMS = {
         "as any other), that lengths are only stepped by one or assigned bounded values and never scaled, and that no "
         "usize subtraction over transparent operands (N - 1, N - size, size - len, N - position - 1, count - len ...) can "
         "underflow (SUB1, 34 of 54 obligations decided; the rest mention opaque values and are listed as undecided). Not "
-        "decided: the number theory of add_mod's overflow compensation (its result < m is assumed); M - <loop counter> in From<[T; M]>.",
+        "decided: the number theory of add_mod's overflow compensation (its result < m is assumed); M - <loop counter> in From<[T; M]>. "
+        "Because every rule of this machinery is decided for a symbolic capacity and element type, the sequence-semantics rules "
+        "whose verdict is thereby valid at N = usize::MAX and for zero-sized T are evaluated under this property too: RIDX1, "
+        "DRNVIEW1/DRAINIT1 (destructor runs of a drain), ORD1/HASH1/DBG1/BASE2/BASE3 (comparison results), TWIN of the range views.",
         note="Value-level arithmetic correctness of add_mod itself is not decided by this family.",
         ref="DESIGN.md §5 C19",
     ),
@@ -224,7 +235,8 @@ CLAIMS = {
         "closure of every O(1)-documented entry; closed table of bulk movers",
         text="Static decision of the O(1) clause as an effect property: from no operation documented as constant-time "
         "(38 entries, element destructors excluded) is a loop, recursion or bulk-relocating call reachable, for every N, "
-        "layout and argument; bulk relocation exists only in remove, Drain::drop, make_contiguous and From<[T;M]>, and "
+        "layout and argument; bulk relocation exists only in remove, Drain::drop, make_contiguous and From<[T;M]>, with no "
+        "more bulk-move sites than the linear bound of each was reviewed for (3/1/1/1), and "
         "make_contiguous does not rotate unconditionally. Also VIEWCMP1 (make_contiguous's contiguity test agrees with as_slices) and KIND1 on remove/swap/Drain::drop (no branch decided by comparing a physical position with a length). Not decided: the linear bounds for remove/drain and the "
         "correctness of make_contiguous's contiguity test.",
         note="KNOWN LIMIT: defect F6 (make_contiguous rotates although contents are contiguous when they end exactly at "
@@ -241,7 +253,7 @@ CLAIMS = {
         "as_mut_slices; to_vec/Debug/Hash/PartialOrd/Ord/&IntoIterator -> iter), that get/front/back (and pop/remove) "
         "answer None only over an edge establishing N==0, size==0 or index>=size and Some only under index<size / size>0 "
         "(NONE1), and that each mutable accessor performs the same steps on the same operands as its shared twin (TWIN "
-        "x11). Also: every view builds its single contiguous piece items[lower..upper] only where the guard facts entail lower < upper strictly and splits/rotates the array only where they entail upper <= lower, whatever the spelling of the test (VIEWCMP1); front/back-like accessors that forward to get(_mut) do so only under size > 0 with the index size-1 resp. 0 (NONE1, forwarder form), index-kind inference (KIND1), Iter/IterMut override no provided iterator method (ITERSET1). Not decided: agreement of the two primitives with each other, make_contiguous's result, range selection.",
+        "x11, plus the 8 Iter/IterMut range-view pairs). Also: every view builds its single contiguous piece items[lower..upper] only where the guard facts entail lower < upper strictly and splits/rotates the array only where they entail upper <= lower, whatever the spelling of the test (VIEWCMP1); front/back-like accessors that forward to get(_mut) do so only under size > 0 with the index size-1 resp. 0 (NONE1, forwarder form), index-kind inference (KIND1), Iter/IterMut override no provided iterator method (ITERSET1). Not decided: agreement of the two primitives with each other, make_contiguous's result, range selection.",
         note="[twin]/shape rules: a behaviour-preserving rewrite of a forwarder or of one twin would also be reported. "
         "Distinctness of mutable references: borrow checker outside unsafe + closed table of unsafe producers (C03).",
         ref="DESIGN.md §5 C07",
@@ -305,7 +317,8 @@ CLAIMS = {
         "infallible &[u8] reader), write forwards the unmodified input once to extend_from_slice and reports src.len(), "
         "read copies front->dst then back->dst[r1..] of one as_slices() call, removes exactly r1+r2 from the front after "
         "both and returns that sum with no other mutation, fill_buf returns front iff it is non-empty else back, consume "
-        "drains ..min(amt,len), and no zero-capacity modulus/index is reachable from the five entries. Not decided: which "
+        "drains ..min(amt,len) and Drain::drop, which completes it, runs droppers -> back-fill -> restore of size on every path "
+        "(DRN1), and no zero-capacity modulus/index is reachable from the five entries. Not decided: which "
         "bytes extend_from_slice keeps (C01), non-underflow of len-count, non-emptiness of fill_buf for a non-empty buffer.",
         note="Shape rules on small methods; trusted: std's <&[u8] as Read>::read.",
         ref="DESIGN.md §5 C14",
